@@ -1,6 +1,7 @@
 (* Properties/C11.v — Secret envelopes round-trip and reject corruption.
    Only statements closed by [exact]; the proofs live in Proofs/Envelope*.v. *)
-From Verif Require Import Base.Bytes Model.Envelope Src.SrcEnvelope Proofs.EnvelopeBase64 Proofs.EnvelopeProofs.
+From Verif Require Import Base.Bytes Model.Envelope Src.SrcEnvelope Proofs.EnvelopeBase64 Proofs.EnvelopeProofs
+  Proofs.EnvelopeCRC.
 
 (* the parameters the Go source has today, as read by srcfacts on this run *)
 Definition src_params : env_params :=
@@ -37,6 +38,64 @@ Theorem C11_reject_wrong_checksum : forall bin,
   crc32 (stake (String.length bin - 4) bin) <> be32_read (sdrop (String.length bin - 4) bin) ->
   forall ct, decode_ct src_params (b64_encode bin) <> DOk ct.
 Proof. exact (reject_wrong_checksum src_params). Qed.
+
+(* ---- corruption of the binary envelope [env_bin p ct] by xor with a mask [m] of the same length ----
+   positions are counted in CRC transmission order (bit j of byte i is 8i+j) *)
+
+(* up to three flipped bits anywhere (trailer included) in an envelope of at most 91639 bits are rejected;
+   the bound is the exact Hamming-distance-4 range of CRC-32 (see C11_hd_bound_sharp) *)
+Theorem C11_reject_le3_flips : forall ct m : string,
+  String.length m = String.length (env_bin src_params ct) -> mask_le3 m = true ->
+  forall ct', decode_ct src_params (b64_encode (sxor (env_bin src_params ct) m)) <> DOk ct'.
+Proof. exact (mask_le3_rejected src_params). Qed.
+
+(* any burst of at most 32 bits inside the checksummed bytes, for envelopes of EVERY length *)
+Theorem C11_reject_burst32_body : forall ct m : string,
+  String.length m = String.length (env_bin src_params ct) -> mask_burst32_body m = true ->
+  forall ct', decode_ct src_params (b64_encode (sxor (env_bin src_params ct) m)) <> DOk ct'.
+Proof. exact (mask_burst32_body_rejected src_params). Qed.
+
+(* any change confined to the four checksum bytes *)
+Theorem C11_reject_trailer_change : forall ct m : string,
+  String.length m = String.length (env_bin src_params ct) -> mask_in_trailer m = true ->
+  forall ct', decode_ct src_params (b64_encode (sxor (env_bin src_params ct) m)) <> DOk ct'.
+Proof. exact (mask_in_trailer_rejected src_params). Qed.
+
+(* the whole guaranteed class (<= 3 flips, or a burst of span <= 32 anywhere) except the recorded known finding:
+   a burst of MORE than three bits that straddles the boundary between the checksummed bytes and the trailer *)
+Theorem C11_reject_guaranteed_partial : forall ct m : string,
+  String.length m = String.length (env_bin src_params ct) ->
+  guaranteed_mask m = true -> boundary_burst m = false ->
+  forall ct', decode_ct src_params (b64_encode (sxor (env_bin src_params ct) m)) <> DOk ct'.
+Proof. exact (guaranteed_mask_rejected src_params). Qed.
+
+(* ... and the full statement is false of the wire format: the trailer is stored big-endian, so the classical
+   burst guarantee does not hold across the boundary (C11-boundary, a property of the format, not repairable) *)
+Theorem C11_burst_boundary_refuted :
+  exists ct m ct',
+    String.length m = String.length (env_bin std ct)
+    /\ burst32 (mask_positions m) = true
+    /\ existsb (fun q => q <? 8 * (slen m - 4)) (mask_positions m) = true
+    /\ existsb (fun q => 8 * (slen m - 4) <=? q) (mask_positions m) = true
+    /\ decode_ct std (b64_encode (sxor (env_bin std ct) m)) = DOk ct'
+    /\ ct' <> ct.
+Proof. exact burst_boundary_refuted. Qed.
+
+(* the 91639-bit bound is sharp: a weight-3 pattern of 91640 bits is a CRC-32 codeword *)
+Theorem C11_hd_bound_sharp :
+  8 * N.of_nat (length sharp_pattern) = 91640 /\ popc sharp_pattern = 3%nat
+  /\ bit_positions 0 sharp_pattern = [0; 49961; 91639]
+  /\ crc_update 0 sharp_pattern = 0.
+Proof. exact hd_bound_sharp. Qed.
+
+(* the register is GF(2)-linear: the acceptance of an error pattern does not depend on the message *)
+Theorem C11_crc_linear : forall m e : string, String.length m = String.length e ->
+  crc32 (sxor m e) = N.lxor (crc32 m) (crc_update 0 (bytes_of e)).
+Proof. exact crc32_sxor. Qed.
+
+Example C11_example_masks :
+  mask_le3 ex_mask3 = true /\ mask_burst32_body ex_mask_body = true.
+Proof. exact (conj eq_refl eq_refl). Qed.
 
 (* non-vacuity: a concrete non-trivial envelope *)
 Example C11_example : decode_ct src_params (encode_ct src_params "hunter2") = DOk "hunter2"
